@@ -45,7 +45,14 @@ ids; start_value, stored state, external writes, None writes; copies (copy, deep
 activation) with listeners attached on either side; several instances / classes / threads / tasks / event loops,
 machines driven from inside callbacks of other machines, add_listener from inside callbacks and from other threads,
 cancelled tasks, failing callbacks under concurrency, queues of thousands of events; diagrams of classes and of
-instances in every state, after late listeners, with start_value, with duplicate names, before / after subclasses.
+instances in every state, after late listeners, with start_value, with duplicate names, before / after subclasses,
+arrows counted in the DOT text; callbacks that write current_state_value themselves (every group, both engines);
+constructor options passed positionally or changed after construction; explicit activate_initial_state(); a base class
+used before its subclass exists; markcoroutinefunction-marked and __signature__-publishing callbacks; chained events
+(an event name used as a callback) with positional arguments; property objects as guards, inherited; the name `v` as a
+guard; states with equal values; Enum classes shared by unrelated machines; listeners shared by machines and changed in
+between; add_observer; bind_events_to with nothing else referencing the machine; thread preemption between the bytecode
+instructions of the engine's put().
 
 Already tried for this property (do not repeat):
 """ + "\n".join(prior))
